@@ -20,7 +20,9 @@ class C02(Spec):
     shrink_sep = " "
     rule = ("one case = program + schedule prefix (a reachable state of the real queue with the other threads frozen "
             "mid-operation) + one busy thread that is then run alone; for the explored configurations every reachable "
-            "model state (shortest prefix) × every busy thread, plus random prefixes of larger shapes; compared: the "
+            "model state (shortest prefix) × every busy thread, plus STARVATION prefixes (the victim loses its link/head CAS k = 1..20 (thorough: ..64) times in a row "
+            "to completing adversaries, the last one suspended between its two CASes) and random prefixes of larger "
+            "shapes; compared: the "
             "step log of prefix and solo run and the number of solo steps (the model's measure mu must bound it). "
             "non-trivial = the solo run contains a failed CAS or a helping CAS (needs more than one loop iteration)")
     trusted_base = ["controlled scheduler harness/csched + verifYield hooks in loom/queue.go (build tag verif)",
